@@ -9,14 +9,14 @@ open WuffsVerif.Gen.C16 WuffsVerif.Flate.Spec
 
 /-- What `doHuffman` does on a Huffman block (code lengths `ll`, `dl`) that the spec decodes from `out`
 to `T`, ending at `pE`. -/
-structure HuffSim (hl hd : Huff) (minL minD : Nat) (ll : Array Nat) (c : Cutter) (out : Bytes) (pE : Nat)
+structure HuffSim (hl hd : Huff) (minL minD : Nat) (ll : Array Nat) (k : Nat) (c : Cutter) (out : Bytes) (pE : Nat)
     (T : Bytes) (r : Cutter × Option Err) : Prop where
   size : r.1.bits.bytes.size = c.bits.bytes.size
   max : r.1.maxEncodedLen = c.maxEncodedLen
-  nil : r.2 = none → r.1.bits.bytes = c.bits.bytes ∧ r.1.bits.pos = pE ∧ r.1.decodedLen = (T.size : Int) ∧
+  nil : r.2 = none → r.1.bits.bytes = c.bits.bytes ∧ r.1.bits.pos = pE ∧ r.1.decodedLen + (k : Int) = (T.size : Int) ∧
       pE ≤ 8 * c.maxEncodedLen ∧ r.1.bits.Inv
   prog : r.2 = some .someProgress → ∃ q o, Reach hl hd minL minD c.bits.bytes c.bits.pos out q o ∧
-      c.bits.pos < q ∧ r.1.decodedLen = (o.size : Int) ∧ q + ll.getD 256 0 ≤ 8 * c.maxEncodedLen ∧
+      c.bits.pos < q ∧ r.1.decodedLen + (k : Int) = (o.size : Int) ∧ q + ll.getD 256 0 ≤ 8 * c.maxEncodedLen ∧
       8 * r.1.bits.index - r.1.bits.nBits = q + ll.getD 256 0 ∧ r.1.bits.nBits ≤ 8 * r.1.bits.index ∧
       r.1.bits.nBits ≤ 8 ∧ (∃ h : Huffman, h.Good ll) ∧ (∃ x ∈ ll.toList, x ≠ 0) ∧ ll.getD 256 0 ≠ 0 ∧
       ∀ i, bitAt r.1.bits.bytes i =
@@ -30,8 +30,9 @@ theorem doHuffman_sim (c : Cutter) (hc : c.OK) (ll dl : Array Nat) (hl hd : Huff
     (hHl : mkHuff ll = some hl) (hHd : mkHuff dl = some hd) (hll : ll.size ≤ 288) (hdl : dl.size ≤ 32)
     (h256 : 256 < ll.size) (minL minD fuelS pE : Nat) (out T : Bytes) (hminL : minL = ll.getD 256 0)
     (hspec : huffBlock hl hd minL minD c.bits.bytes none 0 fuelS c.bits.pos out = .next pE T)
-    (hcd : c.decodedLen = (out.size : Int)) (hT : (T.size : Int) < 2147483648) (isFirst : Bool) :
-    HuffSim hl hd minL minD ll c out pE T (c.doHuffman isFirst ll dl) := by
+    (k : Nat) (hcd : c.decodedLen + (k : Int) = (out.size : Int)) (hc0 : 0 ≤ c.decodedLen)
+    (hT : (T.size : Int) < 2147483648) (isFirst : Bool) :
+    HuffSim hl hd minL minD ll k c out pE T (c.doHuffman isFirst ll dl) := by
   obtain ⟨k1, k2, _⟩ := doHuffman_ok c isFirst ll dl
   rw [doHuffman_eq] at k1 k2 ⊢
   have hlo := offAt16_le ll 288 hll
@@ -87,7 +88,7 @@ theorem doHuffman_sim (c : Cutter) (hc : c.OK) (ll dl : Array Nat) (hl hd : Huff
           have hsim := huffTail_sim _ hc3 ll dl hl hd ctx minL minD fuelS pE out T
             (by show huffBlock hl hd minL minD c.bits.unread.bytes none 0 fuelS c.bits.unread.pos out = .next pE T
                 rw [hup]; exact hspec)
-            hcd hT hL0 hL.symm isFirst
+            k hcd hc0 hT hL0 hL.symm isFirst
           obtain ⟨s1, s2, s3, s4, s5, s6, _⟩ := hsim
           subst hL
           refine ⟨k2, k1, s3, ?_, s5, s6⟩
